@@ -111,6 +111,12 @@ def run(run):
                         percall = []
                         ex_ = ct.array_contract_expression(net.c_inputs(), net.c_output(), net.c_sizes(), optimize="greedy")
                         percall.append(("array_contract_expression(...)(*arrays, strip_exponent=True)", ex_(*arrays, strip_exponent=True)))
+                        # the interface entry points handed THIS (possibly sliced) tree: stripping must happen inside every slice
+                        percall.append(("array_contract(optimize=<this tree>)", ct.array_contract(
+                            arrays, net.c_inputs(), net.c_output(), optimize=tree, strip_exponent=True, cache_expression=rng.random() < 0.5)))
+                        ex2 = ct.array_contract_expression(net.c_inputs(), net.c_output(), net.c_sizes(), optimize=tree,
+                                                           strip_exponent=True, cache=rng.random() < 0.5)
+                        percall.append(("array_contract_expression(optimize=<this tree>, strip_exponent=True)(*arrays)", ex2(*arrays)))
                         if not sl:
                             percall.append(("tree.get_contractor()(*arrays, strip_exponent=True)",
                                             tree.get_contractor()(*arrays, strip_exponent=True)))
